@@ -136,21 +136,76 @@ def defn(name, binders, ty, body):
 
 
 def pure_if_function(tree, src, name, coq_name):
-    """def f(x, L): if x >= L: return x - L ; return x      ->   pure Z function."""
+    """A two-argument integer helper `def f(x, L)` written with `if` (no else needed), re-assignments of x
+    (`x = e`, `x -= e`, `x += e`, `x %= e`) and `return e`:  translated to a pure Z -> Z -> Z function.
+    Covers  `if x >= L: return x - L` / `return x`  and nested variants; anything else fails closed."""
     fn = py2v.find_function(tree, name)
     args = [a.arg for a in fn.args.args]
-    body = [s for s in fn.body if not (isinstance(s, ast.Expr) and isinstance(s.value, ast.Constant))]
-    if args != ['x', 'L'] or len(body) != 2 or not isinstance(body[0], ast.If) or body[0].orelse \
-            or len(body[0].body) != 1 or not isinstance(body[0].body[0], ast.Return) or not isinstance(body[1], ast.Return):
-        raise TE(f'site {name}: not of the shape `if c: return a` / `return b`')
+    if args != ['x', 'L']:
+        raise TE(f'site {name}: parameters {args} != [x, L]')
     env = {'x': 'Z', 'L': 'Z'}
-    e = py2v.Expr(env, site=name, src=src)
-    c, tc = e.tr(body[0].test)
-    a, ta = e.tr(body[0].body[0].value)
-    b, tb = e.tr(body[1].value)
-    if (tc, ta, tb) != ('B', 'Z', 'Z'):
-        raise TE(f'site {name}: unexpected types {tc},{ta},{tb}')
-    return defn(coq_name, [('x', 'Z'), ('L', 'Z')], 'Z', f'if {c} then {a} else {b}')
+
+    def ex(node, want):
+        e = py2v.Expr(env, site=name, src=src)
+        t, ty = e.tr(node)
+        if e.pre or ty != want:
+            raise TE(f'site {name}: line {node.lineno}: expected a {want} expression: {ast.unparse(node)}')
+        return t
+
+    def strip(stmts):
+        return [s for s in stmts if not (isinstance(s, ast.Expr) and isinstance(s.value, ast.Constant))]
+
+    def new_x(s):
+        """value of x after a single assignment statement, or None"""
+        if isinstance(s, ast.Assign) and len(s.targets) == 1 and ast.unparse(s.targets[0]) == 'x':
+            return ex(s.value, 'Z')
+        if isinstance(s, ast.AugAssign) and ast.unparse(s.target) == 'x' and isinstance(s.op, (ast.Add, ast.Sub, ast.Mod)):
+            return ex(ast.fix_missing_locations(ast.copy_location(
+                ast.BinOp(left=ast.Name(id='x', ctx=ast.Load()), op=s.op, right=s.value), s)), 'Z')
+        return None
+
+    def returns(stmts):
+        return bool(stmts) and (isinstance(stmts[-1], ast.Return) or
+                                (isinstance(stmts[-1], ast.If) and returns(strip(stmts[-1].body))
+                                 and returns(strip(stmts[-1].orelse))))
+
+    def value(stmts):
+        """the returned value of a block that ends in return on every path"""
+        stmts = strip(stmts)
+        if not stmts:
+            raise TE(f'site {name}: a path does not return')
+        s, rest = stmts[0], stmts[1:]
+        if isinstance(s, ast.Return):
+            if s.value is None:
+                raise TE(f'site {name}: bare return')
+            return ex(s.value, 'Z')
+        nx = new_x(s)
+        if nx is not None:
+            return f'(let x := {nx} in {value(rest)})'
+        if isinstance(s, ast.If):
+            c = ex(s.test, 'B')
+            if returns(strip(s.body)):
+                return f'(if {c} then {value(s.body)} else {value(list(s.orelse) + rest)})'
+            if returns(strip(s.orelse)):
+                return f'(if {c} then {value(list(s.body) + rest)} else {value(s.orelse)})'
+            return f'(let x := (if {c} then {after(s.body)} else {after(s.orelse)}) in {value(rest)})'
+        raise TE(f'site {name}: line {s.lineno}: unsupported statement {ast.unparse(s)[:60]}')
+
+    def after(stmts):
+        """the value of x after a block without return"""
+        stmts = strip(stmts)
+        if not stmts:
+            return 'x'
+        s, rest = stmts[0], stmts[1:]
+        nx = new_x(s)
+        if nx is not None:
+            return f'(let x := {nx} in {after(rest)})'
+        if isinstance(s, ast.If) and not returns(strip(s.body)) and not returns(strip(s.orelse)):
+            c = ex(s.test, 'B')
+            return f'(let x := (if {c} then {after(s.body)} else {after(s.orelse)}) in {after(rest)})'
+        raise TE(f'site {name}: line {s.lineno}: unsupported statement {ast.unparse(s)[:60]}')
+
+    return defn(coq_name, [('x', 'Z'), ('L', 'Z')], 'Z', value(fn.body))
 
 
 WSUF = {'m1': 'M1', '': 'C0', 'p1': 'P1'}
